@@ -101,4 +101,90 @@ theorem find?_none_of_not_mem {β : Type} (key : Key) : ∀ (l : List (Key × β
     simp only [List.find?, hk]
     exact find?_none_of_not_mem key r h.2
 
+
+@[simp] theorem Res.bind_ok {α β : Type} (a : α) (f : α → Res β) : (Res.ok a >>= f) = f a := rfl
+@[simp] theorem Res.bind_perr {α β : Type} (f : α → Res β) : ((Res.perr : Res α) >>= f) = Res.perr := rfl
+@[simp] theorem Res.pure_eq {α : Type} (a : α) : (pure a : Res α) = Res.ok a := rfl
+
+/-- the outcome of a conversion of `j` that may also refuse: ParseError, or a value equal to `x` -/
+def Weak (r : Res Val) (x : Val) : Prop := r = .perr ∨ ∃ y, r = .ok y ∧ y.canon = x.canon
+/-- … that succeeds -/
+def Strong (r : Res Val) (x : Val) : Prop := ∃ y, r = .ok y ∧ y.canon = x.canon
+
+theorem Strong.weak {r : Res Val} {x : Val} (h : Strong r x) : Weak r x := Or.inr h
+
+inductive All2 {α β : Type} (R : α → β → Prop) : List α → List β → Prop where
+  | nil : All2 R [] []
+  | cons {a : α} {b : β} {as : List α} {bs : List β} : R a b → All2 R as bs → All2 R (a :: as) (b :: bs)
+
+theorem All2.imp {α β : Type} {R S : α → β → Prop} (h : ∀ a b, R a b → S a b) {as : List α} {bs : List β}
+    (h2 : All2 R as bs) : All2 S as bs := by
+  induction h2 with
+  | nil => exact .nil
+  | cons r _ ih => exact .cons (h _ _ r) ih
+
+theorem mapRes_strong (f : Js → Res Val) {xs : List Val} {js : List Js}
+    (h : All2 (fun x j => Strong (f j) x) xs js) :
+    ∃ ys, mapRes f js = .ok ys ∧ canonList ys = canonList xs := by
+  induction h with
+  | nil => exact ⟨[], rfl, rfl⟩
+  | cons h1 _ ih =>
+    obtain ⟨y, hy, hc⟩ := h1
+    obtain ⟨ys, hys, hcs⟩ := ih
+    exact ⟨y :: ys, by simp [mapRes, hy, hys], by simp [canonList, hc, hcs]⟩
+
+theorem mapRes_weak (f : Js → Res Val) {xs : List Val} {js : List Js}
+    (h : All2 (fun x j => Weak (f j) x) xs js) :
+    mapRes f js = .perr ∨ ∃ ys, mapRes f js = .ok ys ∧ canonList ys = canonList xs := by
+  induction h with
+  | nil => exact Or.inr ⟨[], rfl, rfl⟩
+  | cons h1 _ ih =>
+    rcases h1 with hp | ⟨y, hy, hc⟩
+    · left; simp [mapRes, hp]
+    · rcases ih with hp | ⟨ys, hys, hcs⟩
+      · left; simp [mapRes, hy, hp]
+      · right; exact ⟨y :: ys, by simp [mapRes, hy, hys], by simp [canonList, hc, hcs]⟩
+
+/-- `_parse_map_args` on the encoding of a dict with distinct keys -/
+theorem parseMap_strong (fk : Str → Res Key) (fv : Js → Res Val) {kvs : List (Key × Val)} {js : List (Str × Js)}
+    (h : All2 (fun kv sj => fk sj.1 = .ok kv.1 ∧ Strong (fv sj.2) kv.2) kvs js)
+    (hd : distinct (kvs.map (·.1)) = true) :
+    ∃ ys, parseMapWith fk fv js = .ok ys ∧ canonKVs ys = canonKVs kvs ∧ ys.map (·.1) = kvs.map (·.1) := by
+  induction h with
+  | nil => exact ⟨[], rfl, rfl, rfl⟩
+  | @cons kv sj kvs js h1 _ ih =>
+    obtain ⟨key, x⟩ := kv
+    obtain ⟨s, j⟩ := sj
+    simp only [List.map_cons, distinct, Bool.and_eq_true, Bool.not_eq_eq_eq_not, Bool.not_true] at hd
+    obtain ⟨hk, y, hy, hc⟩ := h1
+    obtain ⟨ys, hys, hcs, hks⟩ := ih hd.2
+    have hfind : ys.find? (fun kv => kv.1 == key) = none :=
+      find?_none_of_not_mem key ys (by rw [hks]; exact hd.1)
+    simp only at hk hy hc
+    exact ⟨(key, y) :: ys, by simp [parseMapWith, hk, hy, hys, hfind], by simp [canonKVs, hc, hcs], by simp [hks]⟩
+
+theorem parseMap_weak (fk : Str → Res Key) (fv : Js → Res Val) {kvs : List (Key × Val)} {js : List (Str × Js)}
+    (h : All2 (fun kv sj => (fk sj.1 = .perr ∨ fk sj.1 = .ok kv.1) ∧ Weak (fv sj.2) kv.2) kvs js)
+    (hd : distinct (kvs.map (·.1)) = true) :
+    parseMapWith fk fv js = .perr ∨
+      ∃ ys, parseMapWith fk fv js = .ok ys ∧ canonKVs ys = canonKVs kvs ∧ ys.map (·.1) = kvs.map (·.1) := by
+  induction h with
+  | nil => exact Or.inr ⟨[], rfl, rfl, rfl⟩
+  | @cons kv sj kvs js h1 _ ih =>
+    obtain ⟨key, x⟩ := kv
+    obtain ⟨s, j⟩ := sj
+    simp only [List.map_cons, distinct, Bool.and_eq_true, Bool.not_eq_eq_eq_not, Bool.not_true] at hd
+    obtain ⟨hk, hv⟩ := h1
+    simp only at hk hv
+    rcases hk with hk | hk
+    · left; simp [parseMapWith, hk]
+    · rcases hv with hv | ⟨y, hy, hc⟩
+      · left; simp [parseMapWith, hk, hv]
+      · rcases ih hd.2 with hp | ⟨ys, hys, hcs, hks⟩
+        · left; simp [parseMapWith, hk, hy, hp]
+        · right
+          have hfind : ys.find? (fun kv => kv.1 == key) = none :=
+            find?_none_of_not_mem key ys (by rw [hks]; exact hd.1)
+          exact ⟨(key, y) :: ys, by simp [parseMapWith, hk, hy, hys, hfind], by simp [canonKVs, hc, hcs], by simp [hks]⟩
+
 end Utv.C14
